@@ -361,5 +361,5 @@ class Interp:
 
 def analyse(f: FuncInfo) -> Interp:
     it = Interp(f)
-    it.run(f.body)
+    it.run(f.explicit_body)
     return it
